@@ -47,6 +47,9 @@ def pred_gcc_zero_capacity(prop, w):
     ps = _props_of(w)
     if ps and w.get("minimized"):
         return all(name == "gcc" for _, name, _ in ps) and any(_gcc_zero_cap_params(p) for _, _, p in ps)
+    if ps and w.get("constraint") == "gcc":
+        # a monitor names the constraint that misbehaved: it is a gcc and the model posts a zero-capacity gcc
+        return any(name == "gcc" and _gcc_zero_cap_params(p) for _, name, p in ps)
     return False
 
 
